@@ -50,6 +50,9 @@ Record case := mk_case {
   c_disk1 : fs;                       (* listing after *)
   c_states1 : list (path * bool);     (* file states after *)
   c_outside_ok : bool;                (* everything outside the workspace root is unchanged *)
+  c_trace : list (N * path);          (* the real file-system calls of the checkout, in order, as
+                                         reported by the fs.* observation points: (op, path
+                                         relative to the workspace root) *)
   c_prims : list (pcall * N);         (* primitive calls issued by the harness on the real disk
                                          afterwards (only on safe paths), with the result code *)
   c_disk2 : fs;                       (* listing after those calls *)
@@ -135,9 +138,19 @@ Definition anchor_b (rn : list name) (f : fs) : bool :=
 Definition paths_ok_b (d : list dentry) : bool :=
   forallb (fun e => match d_path e with [] => false | _ => true end) d.
 
+(** The model's call trace as the hooks would see it (the quiet lstats are not hooked). *)
+Definition op_code (o : op) : option N :=
+  match o with
+  | OCreateDir => Some 0 | ORemoveDir => Some 1 | OCreateNew => Some 2 | OWrite => Some 3
+  | ORemoveFile => Some 4 | OSymlink => Some 5 | OLstat => Some 6 | OLstatQ => None
+  end%N.
+Definition visible_trace (tr : list event) : list (N * path) :=
+  flat_map (fun ev => match op_code (ev_op ev) with Some c => [(c, ev_path ev)] | None => [] end) tr.
+
 (** detail: 1 diff order, 2 result, 3 disk, 4 file states, 5 trace has an unsafe call,
     6 the recorded inputs do not satisfy the hypotheses of the theorems, 7 a primitive call
-    behaved differently on the real disk *)
+    behaved differently on the real disk, 8 the real sequence of file-system calls differs
+    from the model's *)
 Definition check_case_rn (rn : list name) (c : case) : N :=
   let d := diff_fs (matches (c_sparse c)) (c_t1 c) (c_t2 c) in
   let o := run_update rn (c_disk0 c) (c_states0 c) d in
@@ -149,7 +162,9 @@ Definition check_case_rn (rn : list name) (c : case) : N :=
   let ok_pre := wf_fs_b (c_disk0 c) && anchor_b rn (c_disk0 c) && paths_ok_b (c_diff c) in
   let '(ok_codes, w2) := replay_pcalls (mkW (c_disk1 c) []) (c_prims c) in
   let ok_prims := ok_codes && fs_eqb (w_fs w2) (c_disk2 c) in
+  let ok_calls := list_eqb (pair_eqb N.eqb path_eqb) (visible_trace (o_trace o)) (c_trace c) in
   let detail := (if negb ok_diff then 1 else if negb ok_res then 2 else if negb ok_fs then 3
                  else if negb ok_states then 4 else if negb ok_trace then 5
-                 else if negb ok_pre then 6 else 7)%N in
-  verdict (ok_diff && ok_res && ok_fs && ok_states && ok_trace && ok_pre && ok_prims) (okb rn c) false detail.
+                 else if negb ok_pre then 6 else if negb ok_prims then 7 else 8)%N in
+  verdict (ok_diff && ok_res && ok_fs && ok_states && ok_trace && ok_pre && ok_prims && ok_calls)
+          (okb rn c) false detail.
